@@ -12,7 +12,9 @@ import (
 	"strconv"
 	"strings"
 	"sync"
+	"syscall"
 	"testing"
+	"time"
 )
 
 const maxSamples = 8
@@ -212,4 +214,38 @@ func SaveCase(name string, v any) {
 		blob = []byte(fmt.Sprintf("%#v", v))
 	}
 	_ = os.WriteFile(dir+"/"+name+".case.json", blob, 0o644)
+}
+
+// WaitOrBlocked waits for done. It returns true if instead the whole process consumed
+// (almost) no CPU time over the given window (less than 2 ms per second): it is blocked,
+// not slow. A busy or merely starved process keeps accumulating CPU time, so wall-clock
+// time alone never makes this return true.
+func WaitOrBlocked(done <-chan struct{}, window time.Duration) bool {
+	cpu := func() time.Duration {
+		var ru syscall.Rusage
+		syscall.Getrusage(syscall.RUSAGE_SELF, &ru)
+		return time.Duration(ru.Utime.Nano() + ru.Stime.Nano())
+	}
+	budget := time.Duration(window.Seconds()*2) * time.Millisecond
+	tick := time.NewTicker(time.Second)
+	defer tick.Stop()
+	start, startCPU := time.Now(), cpu()
+	for {
+		select {
+		case <-done:
+			return false
+		case <-tick.C:
+			now := cpu()
+			if os.Getenv("VERIF_WATCH_DEBUG") != "" {
+				fmt.Fprintf(os.Stderr, "watch: cpu+%v over %v\n", now-startCPU, time.Since(start).Round(time.Second))
+			}
+			if now-startCPU > budget {
+				start, startCPU = time.Now(), now
+				continue
+			}
+			if time.Since(start) >= window {
+				return true
+			}
+		}
+	}
 }
